@@ -84,6 +84,18 @@ def run(ctx):
             if er > 1e-9 * sc: viol(f'C05:full:reconstruct{suffix}', f'A != U Sigma V^H (error {er:.2e})', inp, er)
             ctx.count(('full', m, n, cls), True, sample={'shape': [m, n], 'spectrum': cls, 'singular_values': [str(x) for x in sv]} if (m, n) == (3, 3) and cls == 'repeated' else None)
             terms.append(f'({m}%nat, {n}%nat, {r}%nat, {tmat(Ur)}, [' + '; '.join(cm.zlit(tok(v)) for v in sr) + f'], {tmat(Vtr)}, {tqmat(U[:, :r])}, [' + '; '.join(cm.zlit(tok(v)) for v in s) + f'], {tqmat(V[:, :r])})')
+            # the same problem at other scales (only where the factorisation is determined: no repeated value, nullity < 2)
+            if not tags:
+                for sname, scl in (('2^27', 2.0 ** 27), ('2^-40', 2.0 ** -40)):
+                    As = An * scl; top_s = float(max(sv)) * scl if sv else 0.0
+                    try: Us, ss, Vs = qsvd.classical_qsvd_full(As); U1, s1, V1 = qsvd.classical_qsvd(As, 1)
+                    except Exception as e: viol('C05:scaled:raises', f'Q-SVD raised {e!r} on a matrix scaled by {sname}', dict(inp, scale=sname)); continue
+                    if top_s > 0:
+                        if max(abs(float(a) - float(b) * scl) for a, b in zip(ss, sv)) > 1e-9 * top_s: viol('C05:scaled:values', f'singular values of the matrix scaled by {sname} are not the scaled singular values', dict(inp, scale=sname), ss.tolist())
+                        if fro(utils.quat_matmat(utils.quat_matmat(Us, diagq(ss, m, n)), utils.quat_hermitian(Vs)) - As) > 1e-9 * top_s: viol('C05:scaled:reconstruct', f'A != U Sigma V^H for the matrix scaled by {sname}', dict(inp, scale=sname))
+                        if abs(float(s1[0]) - top_s) > 1e-9 * top_s: viol('C05:scaled:truncated', f'rank-1 truncation of the matrix scaled by {sname} has the wrong leading value', dict(inp, scale=sname), s1.tolist(), top_s)
+                    if fro(utils.quat_matmat(utils.quat_hermitian(Us), Us) - utils.quat_eye(m)) > 1e-9 or fro(utils.quat_matmat(utils.quat_hermitian(Vs), Vs) - utils.quat_eye(n)) > 1e-9: viol('C05:scaled:unitary', f'U or V not unitary for the matrix scaled by {sname}', dict(inp, scale=sname))
+                    ctx.count(('scaled', m, n, cls, sname), True)
             # truncation: Eckart-Young value
             for R in range(1, r + 1):
                 np.linalg.svd = rec_svd
